@@ -1,0 +1,887 @@
+//go:build verif
+
+package redis
+
+// C12 differential driver: every operation of a generated history is executed through the wrapper
+// (*Redis, context or plain form) on one miniredis and through raw go-redis (red.NewClient) on its
+// twin; replies, what the breaker was told, and the final keyspaces are reported.  No oracle here.
+
+import (
+	"context"
+	"encoding/json"
+	"testing"
+	"time"
+
+	"github.com/alicebob/miniredis/v2"
+	red "github.com/go-redis/redis/v8"
+	"github.com/gotid/god/internal/verifdrv"
+	"github.com/gotid/god/lib/breaker"
+	"github.com/gotid/god/lib/logx"
+	"github.com/gotid/god/lib/syncx"
+)
+
+type verifOp struct {
+	M    string           `json:"m"`
+	Form string           `json:"form"` // ctx | plain | canceled
+	A    verifdrv.C12Args `json:"a"`
+}
+
+type verifCase struct {
+	Kind string    `json:"kind"` // diff | breaker
+	Seed int       `json:"seed"`
+	Ops  []verifOp `json:"ops"`
+	N    int       `json:"n"`
+}
+
+// verifBrk records what the wrapper tells its breaker, and delegates to the real one.
+type verifBrk struct {
+	inner    breaker.Breaker
+	pass     bool // differential histories: never reject (server errors would otherwise open the breaker and desynchronise the twins)
+	calls    int  // DoWithAcceptable calls
+	other    int  // any other entry point
+	ran      bool // the request was executed
+	accepted bool // acceptable(err) of the executed request
+}
+
+func (b *verifBrk) Name() string                    { return b.inner.Name() }
+func (b *verifBrk) Allow() (breaker.Promise, error) { b.other++; return b.inner.Allow() }
+func (b *verifBrk) Do(req func() error) error       { b.other++; return b.inner.Do(req) }
+func (b *verifBrk) DoWithAcceptable(req func() error, acc breaker.Acceptable) error {
+	b.calls++
+	if b.pass {
+		err := req()
+		b.ran = true
+		b.accepted = acc(err)
+		return err
+	}
+	return b.inner.DoWithAcceptable(func() error {
+		err := req()
+		b.ran = true
+		b.accepted = acc(err)
+		return err
+	}, acc)
+}
+func (b *verifBrk) DoWithFallback(req func() error, fb func(err error) error) error {
+	b.other++
+	return b.inner.DoWithFallback(req, fb)
+}
+func (b *verifBrk) DoWithFallbackAcceptable(req func() error, fb func(err error) error, acc breaker.Acceptable) error {
+	b.other++
+	return b.inner.DoWithFallbackAcceptable(req, fb, acc)
+}
+func (b *verifBrk) reset() { b.calls, b.other, b.ran, b.accepted = 0, 0, false, false }
+func (b *verifBrk) told() any {
+	switch {
+	case b.other > 0 || b.calls > 1:
+		return "other"
+	case b.calls == 0:
+		return "none"
+	case !b.ran:
+		return "rejected"
+	case b.accepted:
+		return "ok"
+	default:
+		return "fail"
+	}
+}
+
+func verifPairs(a verifdrv.C12Args, i int) []Pair {
+	var out []Pair
+	for _, p := range a.Scored(i) {
+		out = append(out, Pair{Member: p.M, Score: int64(p.S)})
+	}
+	return out
+}
+
+// verifWrap calls wrapper method m (named by its context form) in the requested form.
+func verifWrap(w *Redis, node Node, ctx context.Context, plain bool, m string, a verifdrv.C12Args) (val any, err error, extra string, ok bool) {
+	ok = true
+	zero := verifdrv.C12Zero{}
+	switch m {
+	case "BitCountCtx":
+		if plain {
+			val, err = w.BitCount(a.S(0), a.I(1), a.I(2))
+		} else {
+			val, err = w.BitCountCtx(ctx, a.S(0), a.I(1), a.I(2))
+		}
+	case "BitOpAndCtx":
+		if plain {
+			val, err = w.BitOpAnd(a.S(0), a.SS(1)...)
+		} else {
+			val, err = w.BitOpAndCtx(ctx, a.S(0), a.SS(1)...)
+		}
+	case "BitOpOrCtx":
+		if plain {
+			val, err = w.BitOpOr(a.S(0), a.SS(1)...)
+		} else {
+			val, err = w.BitOpOrCtx(ctx, a.S(0), a.SS(1)...)
+		}
+	case "BitOpXorCtx":
+		if plain {
+			val, err = w.BitOpXor(a.S(0), a.SS(1)...)
+		} else {
+			val, err = w.BitOpXorCtx(ctx, a.S(0), a.SS(1)...)
+		}
+	case "BitOpNotCtx":
+		if plain {
+			val, err = w.BitOpNot(a.S(0), a.S(1))
+		} else {
+			val, err = w.BitOpNotCtx(ctx, a.S(0), a.S(1))
+		}
+	case "BitPosCtx":
+		if plain {
+			val, err = w.BitPos(a.S(0), a.I(1), a.I(2), a.I(3))
+		} else {
+			val, err = w.BitPosCtx(ctx, a.S(0), a.I(1), a.I(2), a.I(3))
+		}
+	case "BLPopCtx":
+		if plain {
+			val, err = w.BLPop(node, a.S(0))
+		} else {
+			val, err = w.BLPopCtx(ctx, node, a.S(0))
+		}
+	case "BLPopExCtx":
+		var s string
+		var b bool
+		if plain {
+			s, b, err = w.BLPopEx(node, a.S(0))
+		} else {
+			s, b, err = w.BLPopExCtx(ctx, node, a.S(0))
+		}
+		val = []any{s, b}
+	case "BLPopWithTimeoutCtx":
+		if plain {
+			val, err = w.BLPopWithTimeout(node, time.Duration(a.I(0)), a.S(1))
+		} else {
+			val, err = w.BLPopWithTimeoutCtx(ctx, node, time.Duration(a.I(0)), a.S(1))
+		}
+	case "DecrCtx":
+		if plain {
+			val, err = w.Decr(a.S(0))
+		} else {
+			val, err = w.DecrCtx(ctx, a.S(0))
+		}
+	case "DecrByCtx":
+		if plain {
+			val, err = w.DecrBy(a.S(0), a.I(1))
+		} else {
+			val, err = w.DecrByCtx(ctx, a.S(0), a.I(1))
+		}
+	case "DelCtx":
+		if plain {
+			val, err = w.Del(a.SS(0)...)
+		} else {
+			val, err = w.DelCtx(ctx, a.SS(0)...)
+		}
+	case "EvalCtx":
+		if plain {
+			val, err = w.Eval(verifdrv.C12Lua[a.N(0)], a.SS(1), a.Anys(2)...)
+		} else {
+			val, err = w.EvalCtx(ctx, verifdrv.C12Lua[a.N(0)], a.SS(1), a.Anys(2)...)
+		}
+	case "EvalShaCtx":
+		if plain {
+			val, err = w.EvalSha(a.S(0), a.SS(1), a.Anys(2)...)
+		} else {
+			val, err = w.EvalShaCtx(ctx, a.S(0), a.SS(1), a.Anys(2)...)
+		}
+	case "ExistsCtx":
+		if plain {
+			val, err = w.Exists(a.S(0))
+		} else {
+			val, err = w.ExistsCtx(ctx, a.S(0))
+		}
+	case "ExpireCtx":
+		val = zero
+		if plain {
+			err = w.Expire(a.S(0), a.N(1))
+		} else {
+			err = w.ExpireCtx(ctx, a.S(0), a.N(1))
+		}
+	case "ExpireAtCtx":
+		val = zero
+		if plain {
+			err = w.ExpireAt(a.S(0), a.I(1))
+		} else {
+			err = w.ExpireAtCtx(ctx, a.S(0), a.I(1))
+		}
+	case "GeoAddCtx":
+		if plain {
+			val, err = w.GeoAdd(a.S(0), a.Geo(1)...)
+		} else {
+			val, err = w.GeoAddCtx(ctx, a.S(0), a.Geo(1)...)
+		}
+	case "GeoDistCtx":
+		if plain {
+			val, err = w.GeoDist(a.S(0), a.S(1), a.S(2), a.S(3))
+		} else {
+			val, err = w.GeoDistCtx(ctx, a.S(0), a.S(1), a.S(2), a.S(3))
+		}
+	case "GeoPosCtx":
+		if plain {
+			val, err = w.GeoPos(a.S(0), a.SS(1)...)
+		} else {
+			val, err = w.GeoPosCtx(ctx, a.S(0), a.SS(1)...)
+		}
+	case "GeoRadiusCtx":
+		if plain {
+			val, err = w.GeoRadius(a.S(0), a.F(1), a.F(2), verifdrv.C12GeoQuery(a, 3))
+		} else {
+			val, err = w.GeoRadiusCtx(ctx, a.S(0), a.F(1), a.F(2), verifdrv.C12GeoQuery(a, 3))
+		}
+	case "GeoRadiusByMemberCtx":
+		if plain {
+			val, err = w.GeoRadiusByMember(a.S(0), a.S(1), verifdrv.C12GeoQuery(a, 2))
+		} else {
+			val, err = w.GeoRadiusByMemberCtx(ctx, a.S(0), a.S(1), verifdrv.C12GeoQuery(a, 2))
+		}
+	case "GetCtx":
+		if plain {
+			val, err = w.Get(a.S(0))
+		} else {
+			val, err = w.GetCtx(ctx, a.S(0))
+		}
+	case "GetBitCtx":
+		if plain {
+			val, err = w.GetBit(a.S(0), a.I(1))
+		} else {
+			val, err = w.GetBitCtx(ctx, a.S(0), a.I(1))
+		}
+	case "GetSetCtx":
+		if plain {
+			val, err = w.GetSet(a.S(0), a.S(1))
+		} else {
+			val, err = w.GetSetCtx(ctx, a.S(0), a.S(1))
+		}
+	case "HDelCtx":
+		if plain {
+			val, err = w.HDel(a.S(0), a.SS(1)...)
+		} else {
+			val, err = w.HDelCtx(ctx, a.S(0), a.SS(1)...)
+		}
+	case "HExistsCtx":
+		if plain {
+			val, err = w.HExists(a.S(0), a.S(1))
+		} else {
+			val, err = w.HExistsCtx(ctx, a.S(0), a.S(1))
+		}
+	case "HGetCtx":
+		if plain {
+			val, err = w.HGet(a.S(0), a.S(1))
+		} else {
+			val, err = w.HGetCtx(ctx, a.S(0), a.S(1))
+		}
+	case "HGetAllCtx":
+		if plain {
+			val, err = w.HGetAll(a.S(0))
+		} else {
+			val, err = w.HGetAllCtx(ctx, a.S(0))
+		}
+	case "HIncrByCtx":
+		if plain {
+			val, err = w.HIncrBy(a.S(0), a.S(1), a.N(2))
+		} else {
+			val, err = w.HIncrByCtx(ctx, a.S(0), a.S(1), a.N(2))
+		}
+	case "HKeysCtx":
+		if plain {
+			val, err = w.HKeys(a.S(0))
+		} else {
+			val, err = w.HKeysCtx(ctx, a.S(0))
+		}
+	case "HLenCtx":
+		if plain {
+			val, err = w.HLen(a.S(0))
+		} else {
+			val, err = w.HLenCtx(ctx, a.S(0))
+		}
+	case "HMGetCtx":
+		if plain {
+			val, err = w.HMGet(a.S(0), a.SS(1)...)
+		} else {
+			val, err = w.HMGetCtx(ctx, a.S(0), a.SS(1)...)
+		}
+	case "HSetCtx":
+		val = zero
+		if plain {
+			err = w.HSet(a.S(0), a.S(1), a.S(2))
+		} else {
+			err = w.HSetCtx(ctx, a.S(0), a.S(1), a.S(2))
+		}
+	case "HSetNXCtx":
+		if plain {
+			val, err = w.HSetNX(a.S(0), a.S(1), a.S(2))
+		} else {
+			val, err = w.HSetNXCtx(ctx, a.S(0), a.S(1), a.S(2))
+		}
+	case "HMSetCtx":
+		val = zero
+		if plain {
+			err = w.HMSet(a.S(0), a.Map(1))
+		} else {
+			err = w.HMSetCtx(ctx, a.S(0), a.Map(1))
+		}
+	case "HScanCtx":
+		var ks []string
+		var cur uint64
+		if plain {
+			ks, cur, err = w.HScan(a.S(0), a.U(1), a.S(2), a.I(3))
+		} else {
+			ks, cur, err = w.HScanCtx(ctx, a.S(0), a.U(1), a.S(2), a.I(3))
+		}
+		val = []any{ks, cur}
+	case "HValsCtx":
+		if plain {
+			val, err = w.HVals(a.S(0))
+		} else {
+			val, err = w.HValsCtx(ctx, a.S(0))
+		}
+	case "IncrCtx":
+		if plain {
+			val, err = w.Incr(a.S(0))
+		} else {
+			val, err = w.IncrCtx(ctx, a.S(0))
+		}
+	case "IncrByCtx":
+		if plain {
+			val, err = w.IncrBy(a.S(0), a.I(1))
+		} else {
+			val, err = w.IncrByCtx(ctx, a.S(0), a.I(1))
+		}
+	case "KeysCtx":
+		if plain {
+			val, err = w.Keys(a.S(0))
+		} else {
+			val, err = w.KeysCtx(ctx, a.S(0))
+		}
+	case "LLenCtx":
+		if plain {
+			val, err = w.LLen(a.S(0))
+		} else {
+			val, err = w.LLenCtx(ctx, a.S(0))
+		}
+	case "LIndexCtx":
+		if plain {
+			val, err = w.LIndex(a.S(0), a.I(1))
+		} else {
+			val, err = w.LIndexCtx(ctx, a.S(0), a.I(1))
+		}
+	case "LPopCtx":
+		if plain {
+			val, err = w.LPop(a.S(0))
+		} else {
+			val, err = w.LPopCtx(ctx, a.S(0))
+		}
+	case "LPushCtx":
+		if plain {
+			val, err = w.LPush(a.S(0), a.Anys(1)...)
+		} else {
+			val, err = w.LPushCtx(ctx, a.S(0), a.Anys(1)...)
+		}
+	case "LRangeCtx":
+		if plain {
+			val, err = w.LRange(a.S(0), a.N(1), a.N(2))
+		} else {
+			val, err = w.LRangeCtx(ctx, a.S(0), a.N(1), a.N(2))
+		}
+	case "LRemCtx":
+		if plain {
+			val, err = w.LRem(a.S(0), a.N(1), a.S(2))
+		} else {
+			val, err = w.LRemCtx(ctx, a.S(0), a.N(1), a.S(2))
+		}
+	case "LTrimCtx":
+		val = zero
+		if plain {
+			err = w.LTrim(a.S(0), a.I(1), a.I(2))
+		} else {
+			err = w.LTrimCtx(ctx, a.S(0), a.I(1), a.I(2))
+		}
+	case "MGetCtx":
+		if plain {
+			val, err = w.MGet(a.SS(0)...)
+		} else {
+			val, err = w.MGetCtx(ctx, a.SS(0)...)
+		}
+	case "PersistCtx":
+		if plain {
+			val, err = w.Persist(a.S(0))
+		} else {
+			val, err = w.PersistCtx(ctx, a.S(0))
+		}
+	case "PFAddCtx":
+		if plain {
+			val, err = w.PFAdd(a.S(0), a.Anys(1)...)
+		} else {
+			val, err = w.PFAddCtx(ctx, a.S(0), a.Anys(1)...)
+		}
+	case "PFCountCtx":
+		if plain {
+			val, err = w.PFCount(a.S(0))
+		} else {
+			val, err = w.PFCountCtx(ctx, a.S(0))
+		}
+	case "PFMergeCtx":
+		val = zero
+		if plain {
+			err = w.PFMerge(a.S(0), a.SS(1)...)
+		} else {
+			err = w.PFMergeCtx(ctx, a.S(0), a.SS(1)...)
+		}
+	case "PingCtx":
+		if plain {
+			val = w.Ping()
+		} else {
+			val = w.PingCtx(ctx)
+		}
+	case "PipelinedCtx":
+		var cmds []red.Cmder
+		val = zero
+		fn := verifdrv.C12PipeFn(verifdrv.C12PipeScript(a, 0), &cmds)
+		if plain {
+			err = w.Pipelined(fn)
+		} else {
+			err = w.PipelinedCtx(ctx, fn)
+		}
+		extra = verifdrv.C12PipeResults(cmds)
+	case "RPopCtx":
+		if plain {
+			val, err = w.RPop(a.S(0))
+		} else {
+			val, err = w.RPopCtx(ctx, a.S(0))
+		}
+	case "RPushCtx":
+		if plain {
+			val, err = w.RPush(a.S(0), a.Anys(1)...)
+		} else {
+			val, err = w.RPushCtx(ctx, a.S(0), a.Anys(1)...)
+		}
+	case "SAddCtx":
+		if plain {
+			val, err = w.SAdd(a.S(0), a.Anys(1)...)
+		} else {
+			val, err = w.SAddCtx(ctx, a.S(0), a.Anys(1)...)
+		}
+	case "ScanCtx":
+		var ks []string
+		var cur uint64
+		if plain {
+			ks, cur, err = w.Scan(a.U(0), a.S(1), a.I(2))
+		} else {
+			ks, cur, err = w.ScanCtx(ctx, a.U(0), a.S(1), a.I(2))
+		}
+		val = []any{ks, cur}
+	case "SetBitCtx":
+		if plain {
+			val, err = w.SetBit(a.S(0), a.I(1), a.N(2))
+		} else {
+			val, err = w.SetBitCtx(ctx, a.S(0), a.I(1), a.N(2))
+		}
+	case "SScanCtx":
+		var ks []string
+		var cur uint64
+		if plain {
+			ks, cur, err = w.SScan(a.S(0), a.U(1), a.S(2), a.I(3))
+		} else {
+			ks, cur, err = w.SScanCtx(ctx, a.S(0), a.U(1), a.S(2), a.I(3))
+		}
+		val = []any{ks, cur}
+	case "SCardCtx":
+		if plain {
+			val, err = w.SCard(a.S(0))
+		} else {
+			val, err = w.SCardCtx(ctx, a.S(0))
+		}
+	case "ScriptLoadCtx":
+		if plain {
+			val, err = w.ScriptLoad(verifdrv.C12Lua[a.N(0)])
+		} else {
+			val, err = w.ScriptLoadCtx(ctx, verifdrv.C12Lua[a.N(0)])
+		}
+	case "SetCtx":
+		val = zero
+		if plain {
+			err = w.Set(a.S(0), a.S(1))
+		} else {
+			err = w.SetCtx(ctx, a.S(0), a.S(1))
+		}
+	case "SetExCtx":
+		val = zero
+		if plain {
+			err = w.SetEx(a.S(0), a.S(1), a.N(2))
+		} else {
+			err = w.SetExCtx(ctx, a.S(0), a.S(1), a.N(2))
+		}
+	case "SetNXCtx":
+		if plain {
+			val, err = w.SetNX(a.S(0), a.S(1))
+		} else {
+			val, err = w.SetNXCtx(ctx, a.S(0), a.S(1))
+		}
+	case "SetNXExCtx":
+		if plain {
+			val, err = w.SetNXEx(a.S(0), a.S(1), a.N(2))
+		} else {
+			val, err = w.SetNXExCtx(ctx, a.S(0), a.S(1), a.N(2))
+		}
+	case "SIsMemberCtx":
+		if plain {
+			val, err = w.SIsMember(a.S(0), a.S(1))
+		} else {
+			val, err = w.SIsMemberCtx(ctx, a.S(0), a.S(1))
+		}
+	case "SMembersCtx":
+		if plain {
+			val, err = w.SMembers(a.S(0))
+		} else {
+			val, err = w.SMembersCtx(ctx, a.S(0))
+		}
+	case "SPopCtx":
+		if plain {
+			val, err = w.SPop(a.S(0))
+		} else {
+			val, err = w.SPopCtx(ctx, a.S(0))
+		}
+	case "SRandMemberCtx":
+		if plain {
+			val, err = w.SRandMember(a.S(0), a.N(1))
+		} else {
+			val, err = w.SRandMemberCtx(ctx, a.S(0), a.N(1))
+		}
+	case "SRemCtx":
+		if plain {
+			val, err = w.SRem(a.S(0), a.Anys(1)...)
+		} else {
+			val, err = w.SRemCtx(ctx, a.S(0), a.Anys(1)...)
+		}
+	case "SUnionCtx":
+		if plain {
+			val, err = w.SUnion(a.SS(0)...)
+		} else {
+			val, err = w.SUnionCtx(ctx, a.SS(0)...)
+		}
+	case "SUnionStoreCtx":
+		if plain {
+			val, err = w.SUnionStore(a.S(0), a.SS(1)...)
+		} else {
+			val, err = w.SUnionStoreCtx(ctx, a.S(0), a.SS(1)...)
+		}
+	case "SDiffCtx":
+		if plain {
+			val, err = w.SDiff(a.SS(0)...)
+		} else {
+			val, err = w.SDiffCtx(ctx, a.SS(0)...)
+		}
+	case "SDiffStoreCtx":
+		if plain {
+			val, err = w.SDiffStore(a.S(0), a.SS(1)...)
+		} else {
+			val, err = w.SDiffStoreCtx(ctx, a.S(0), a.SS(1)...)
+		}
+	case "SInterCtx":
+		if plain {
+			val, err = w.SInter(a.SS(0)...)
+		} else {
+			val, err = w.SInterCtx(ctx, a.SS(0)...)
+		}
+	case "SInterStoreCtx":
+		if plain {
+			val, err = w.SInterStore(a.S(0), a.SS(1)...)
+		} else {
+			val, err = w.SInterStoreCtx(ctx, a.S(0), a.SS(1)...)
+		}
+	case "TTLCtx":
+		if plain {
+			val, err = w.TTL(a.S(0))
+		} else {
+			val, err = w.TTLCtx(ctx, a.S(0))
+		}
+	case "ZAddCtx":
+		if plain {
+			val, err = w.ZAdd(a.S(0), a.I(1), a.S(2))
+		} else {
+			val, err = w.ZAddCtx(ctx, a.S(0), a.I(1), a.S(2))
+		}
+	case "ZAddFloatCtx":
+		if plain {
+			val, err = w.ZAddFloat(a.S(0), a.F(1), a.S(2))
+		} else {
+			val, err = w.ZAddFloatCtx(ctx, a.S(0), a.F(1), a.S(2))
+		}
+	case "ZAddsCtx":
+		if plain {
+			val, err = w.ZAdds(a.S(0), verifPairs(a, 1)...)
+		} else {
+			val, err = w.ZAddsCtx(ctx, a.S(0), verifPairs(a, 1)...)
+		}
+	case "ZCardCtx":
+		if plain {
+			val, err = w.ZCard(a.S(0))
+		} else {
+			val, err = w.ZCardCtx(ctx, a.S(0))
+		}
+	case "ZCountCtx":
+		if plain {
+			val, err = w.ZCount(a.S(0), a.I(1), a.I(2))
+		} else {
+			val, err = w.ZCountCtx(ctx, a.S(0), a.I(1), a.I(2))
+		}
+	case "ZIncrByCtx":
+		if plain {
+			val, err = w.ZIncrBy(a.S(0), a.I(1), a.S(2))
+		} else {
+			val, err = w.ZIncrByCtx(ctx, a.S(0), a.I(1), a.S(2))
+		}
+	case "ZScoreCtx":
+		if plain {
+			val, err = w.ZScore(a.S(0), a.S(1))
+		} else {
+			val, err = w.ZScoreCtx(ctx, a.S(0), a.S(1))
+		}
+	case "ZRankCtx":
+		if plain {
+			val, err = w.ZRank(a.S(0), a.S(1))
+		} else {
+			val, err = w.ZRankCtx(ctx, a.S(0), a.S(1))
+		}
+	case "ZRemCtx":
+		if plain {
+			val, err = w.ZRem(a.S(0), a.Anys(1)...)
+		} else {
+			val, err = w.ZRemCtx(ctx, a.S(0), a.Anys(1)...)
+		}
+	case "ZRemRangeByScoreCtx":
+		if plain {
+			val, err = w.ZRemRangeByScore(a.S(0), a.I(1), a.I(2))
+		} else {
+			val, err = w.ZRemRangeByScoreCtx(ctx, a.S(0), a.I(1), a.I(2))
+		}
+	case "ZRemRangeByRankCtx":
+		if plain {
+			val, err = w.ZRemRangeByRank(a.S(0), a.I(1), a.I(2))
+		} else {
+			val, err = w.ZRemRangeByRankCtx(ctx, a.S(0), a.I(1), a.I(2))
+		}
+	case "ZRangeCtx":
+		if plain {
+			val, err = w.ZRange(a.S(0), a.I(1), a.I(2))
+		} else {
+			val, err = w.ZRangeCtx(ctx, a.S(0), a.I(1), a.I(2))
+		}
+	case "ZRangeWithScoresCtx":
+		if plain {
+			val, err = w.ZRangeWithScores(a.S(0), a.I(1), a.I(2))
+		} else {
+			val, err = w.ZRangeWithScoresCtx(ctx, a.S(0), a.I(1), a.I(2))
+		}
+	case "ZRevRangeWithScoresCtx":
+		if plain {
+			val, err = w.ZRevRangeWithScores(a.S(0), a.I(1), a.I(2))
+		} else {
+			val, err = w.ZRevRangeWithScoresCtx(ctx, a.S(0), a.I(1), a.I(2))
+		}
+	case "ZRangeByScoreWithScoresCtx":
+		if plain {
+			val, err = w.ZRangeByScoreWithScores(a.S(0), a.I(1), a.I(2))
+		} else {
+			val, err = w.ZRangeByScoreWithScoresCtx(ctx, a.S(0), a.I(1), a.I(2))
+		}
+	case "ZRangeByScoreWithScoresAndLimitCtx":
+		if plain {
+			val, err = w.ZRangeByScoreWithScoresAndLimit(a.S(0), a.I(1), a.I(2), a.N(3), a.N(4))
+		} else {
+			val, err = w.ZRangeByScoreWithScoresAndLimitCtx(ctx, a.S(0), a.I(1), a.I(2), a.N(3), a.N(4))
+		}
+	case "ZRevRangeCtx":
+		if plain {
+			val, err = w.ZRevRange(a.S(0), a.I(1), a.I(2))
+		} else {
+			val, err = w.ZRevRangeCtx(ctx, a.S(0), a.I(1), a.I(2))
+		}
+	case "ZRevRangeByScoreWithScoresCtx":
+		if plain {
+			val, err = w.ZRevRangeByScoreWithScores(a.S(0), a.I(1), a.I(2))
+		} else {
+			val, err = w.ZRevRangeByScoreWithScoresCtx(ctx, a.S(0), a.I(1), a.I(2))
+		}
+	case "ZRevRangeByScoreWithScoresAndLimitCtx":
+		if plain {
+			val, err = w.ZRevRangeByScoreWithScoresAndLimit(a.S(0), a.I(1), a.I(2), a.N(3), a.N(4))
+		} else {
+			val, err = w.ZRevRangeByScoreWithScoresAndLimitCtx(ctx, a.S(0), a.I(1), a.I(2), a.N(3), a.N(4))
+		}
+	case "ZRevRankCtx":
+		if plain {
+			val, err = w.ZRevRank(a.S(0), a.S(1))
+		} else {
+			val, err = w.ZRevRankCtx(ctx, a.S(0), a.S(1))
+		}
+	case "ZUnionStoreCtx":
+		st := &ZStore{Keys: a.SS(1), Aggregate: a.S(2)}
+		if plain {
+			val, err = w.ZUnionStore(a.S(0), st)
+		} else {
+			val, err = w.ZUnionStoreCtx(ctx, a.S(0), st)
+		}
+	default:
+		ok = false
+	}
+	return
+}
+
+var verifEpoch = time.Unix(1700000000, 0)
+
+func verifDiff(c verifCase) any {
+	sw, err := miniredis.Run()
+	if err != nil {
+		return map[string]any{"error": err.Error()}
+	}
+	defer sw.Close()
+	sr, err := miniredis.Run()
+	if err != nil {
+		return map[string]any{"error": err.Error()}
+	}
+	defer sr.Close()
+	for _, s := range []*miniredis.Miniredis{sw, sr} {
+		s.Seed(c.Seed)
+		s.SetTime(verifEpoch)
+	}
+	clientManager = syncx.NewResourceManager() // ports are reused across cases: never inherit a cached client
+	w := New(sw.Addr())
+	brk := &verifBrk{inner: w.brk, pass: true}
+	w.brk = brk
+	raw := red.NewClient(&red.Options{Addr: sr.Addr(), DB: defaultDatabase, MaxRetries: maxRetries})
+	defer raw.Close()
+	defer func() {
+		if cl, err := getClient(w); err == nil {
+			_ = cl.Close()
+		}
+	}()
+	var node ClosableNode
+	var rawNode *red.Client
+	defer func() {
+		if node != nil {
+			node.Close()
+		}
+		if rawNode != nil {
+			rawNode.Close()
+		}
+	}()
+
+	steps := []any{}
+	for _, op := range c.Ops {
+		if op.M == "#ff" { // time passes on both servers
+			d := time.Duration(op.A.I(0)) * time.Second
+			sw.FastForward(d)
+			sr.FastForward(d)
+			steps = append(steps, map[string]any{"skip": "ff"})
+			continue
+		}
+		ctx := context.Background()
+		if op.Form == "canceled" {
+			cctx, cancel := context.WithCancel(ctx)
+			cancel()
+			ctx = cctx
+		}
+		var rawc red.Cmdable = raw
+		if len(op.M) > 5 && op.M[:5] == "BLPop" {
+			// deterministic subset of the blocking commands: only when an element is there
+			k := op.A.S(len(op.A) - 1)
+			lw, _ := sw.List(k)
+			lr, _ := sr.List(k)
+			if len(lw) == 0 || len(lr) == 0 || op.Form == "canceled" {
+				steps = append(steps, map[string]any{"skip": "blocking"})
+				continue
+			}
+			if node == nil {
+				node, _ = CreateBlockingNode(w)
+				rawNode = red.NewClient(&red.Options{Addr: sr.Addr(), PoolSize: 1})
+			}
+			rawc = rawNode
+		}
+		brk.reset()
+		wv, we, wx, ok := verifWrap(w, node, ctx, op.Form == "plain", op.M, op.A)
+		if !ok {
+			steps = append(steps, map[string]any{"skip": "unknown method " + op.M})
+			continue
+		}
+		told := brk.told()
+		rv, re, rx, _ := verifdrv.C12Raw(rawc, ctx, op.M, op.A)
+		steps = append(steps, map[string]any{
+			"w":   map[string]any{"v": verifdrv.C12Val(verifdrv.C12Canon(op.M, wv)), "e": verifdrv.C12Err(we)},
+			"r":   map[string]any{"v": verifdrv.C12Val(verifdrv.C12Canon(op.M, rv)), "e": verifdrv.C12Err(re)},
+			"brk": told, "xw": wx, "xr": rx,
+		})
+	}
+	return map[string]any{"steps": steps, "dump_w": verifdrv.C12Dump(sw), "dump_r": verifdrv.C12Dump(sr)}
+}
+
+// verifBreaker: the real breaker under (a) absent keys, (b) cancelled contexts, (c) a dead server.
+func verifBreaker(c verifCase) any {
+	s, err := miniredis.Run()
+	if err != nil {
+		return map[string]any{"error": err.Error()}
+	}
+	clientManager = syncx.NewResourceManager()
+	w := New(s.Addr())
+	brk := &verifBrk{inner: w.brk}
+	w.brk = brk
+	defer func() {
+		if cl, err := getClient(w); err == nil {
+			_ = cl.Close()
+		}
+	}()
+	phase := func(f func() error) []any {
+		out := []any{}
+		for i := 0; i < c.N; i++ {
+			brk.reset()
+			err := f()
+			out = append(out, []any{verifdrv.C12Err(err), brk.told()})
+		}
+		return out
+	}
+	nilPhase := phase(func() error { _, err := w.HGet("absent", "f"); return err })
+	cctx, cancel := context.WithCancel(context.Background())
+	cancel()
+	canceledPhase := phase(func() error { _, err := w.GetCtx(cctx, "k"); return err })
+	s.Close()
+	// dead server behind a FRESH wrapper (own breaker, no earlier successes in its window)
+	s2, err := miniredis.Run()
+	if err != nil {
+		return map[string]any{"error": err.Error()}
+	}
+	w2 := New(s2.Addr())
+	brk2 := &verifBrk{inner: w2.brk}
+	w2.brk = brk2
+	defer func() {
+		if cl, err := getClient(w2); err == nil {
+			_ = cl.Close()
+		}
+	}()
+	_, _ = w2.Get("k")
+	s2.Close()
+	deadPhase := []any{}
+	for i := 0; i < c.N; i++ {
+		brk2.reset()
+		_, err := w2.Get("k")
+		deadPhase = append(deadPhase, []any{verifdrv.C12Err(err), brk2.told()})
+	}
+	return map[string]any{"nil": nilPhase, "canceled": canceledPhase, "dead": deadPhase}
+}
+
+func TestVerifDriver(t *testing.T) {
+	logx.Disable()
+	verifdrv.Run(t, func(raw json.RawMessage) any {
+		var c verifCase
+		if err := json.Unmarshal(raw, &c); err != nil {
+			return map[string]any{"error": err.Error()}
+		}
+		switch c.Kind {
+		case "diff":
+			return verifDiff(c)
+		case "breaker":
+			return verifBreaker(c)
+		}
+		return map[string]any{"error": "unknown kind " + c.Kind}
+	})
+}
